@@ -1,7 +1,11 @@
 import Gleece.Properties.C08
+import Gleece.Properties.Conv
 #print axioms Gleece.Doc.check_sound
 #print axioms Gleece.Doc.model_path_params
 #print axioms Gleece.Order.validate_before_marshal_30
 #print axioms Gleece.Order.validate_31
 #print axioms Gleece.Order.v30_always_first
 #print axioms Gleece.Order.write_after_success
+#print axioms Gleece.Conv.enum30_typed
+#print axioms Gleece.Conv.enum31_string_typed
+#print axioms Gleece.Conv.members30_typed
